@@ -414,3 +414,67 @@ fn c12_moveset_find_contract() {
     kani::cover!(first.is_none() && n == 3, "no match reachable");
     std::mem::forget(set);
 }
+
+/// The line writer `IntoNotation<&[Move]> for Lan` (the `info pv` line): the moves' coordinate texts in order, separated by
+/// single spaces, nothing before or after -- for lines of up to two arbitrary moves through the real core::fmt.
+#[kani::proof]
+#[kani::unwind(12)]
+fn c12_lan_line_writer_contract() {
+    use std::fmt::Write;
+    struct Line {
+        b: [u8; 16],
+        n: usize,
+    }
+    impl std::fmt::Write for Line {
+        fn write_str(&mut self, s: &str) -> std::fmt::Result {
+            let bytes = s.as_bytes();
+            let mut i = 0;
+            while i < bytes.len() {
+                if self.n >= 16 {
+                    return Err(std::fmt::Error);
+                }
+                self.b[self.n] = bytes[i];
+                self.n += 1;
+                i += 1;
+            }
+            Ok(())
+        }
+    }
+    let moves: [Move; 2] = [kani::any(), kani::any()];
+    let n: usize = kani::any();
+    kani::assume(n <= 2);
+    let slice: &[Move] = &moves[..n];
+    let mut out = Line { b: [0; 16], n: 0 };
+    let r = write!(out, "{}", into_notation::<_, lan::Lan>(&slice));
+    assert!(r.is_ok());
+    // expected text
+    let mut e = [0u8; 16];
+    let mut k = 0usize;
+    let mut i = 0;
+    while i < 2 {
+        if i < n {
+            if i > 0 {
+                e[k] = b' ';
+                k += 1;
+            }
+            let m = &moves[i];
+            let (o, d) = (sq_u8(m.origin()), sq_u8(m.destination()));
+            e[k] = b'a' + o % 8;
+            e[k + 1] = b'1' + o / 8;
+            e[k + 2] = b'a' + d % 8;
+            e[k + 3] = b'1' + d / 8;
+            k += 4;
+            if let Some(p) = m.promotion() {
+                e[k] = letter(p).to_ascii_lowercase();
+                k += 1;
+            }
+        }
+        i += 1;
+    }
+    assert!(out.n == k);
+    let j: usize = kani::any();
+    kani::assume(j < 16);
+    assert!(j >= k || out.b[j] == e[j]);
+    kani::cover!(n == 2 && moves[0].promotion().is_some(), "two moves, first a promotion");
+    kani::cover!(n == 0, "empty line");
+}
